@@ -149,12 +149,8 @@ class Findings:
         self.n["comparisons"] += k
 
 
-def _f(x):
-    return float(x)
-
-
 def valid_steps(v, e):
-    """[(start, end)] of the valid prefix of episode e; also checks the numbering."""
+    """([(start, end)] of the valid steps of episode e, their number)."""
     seq = v["seq"][e]
     K = int((seq >= 0).sum())
     return [(float(v["ts_start"][e][k]), float(v["ts_end"][e][k])) for k in range(K)], K
@@ -258,8 +254,8 @@ def check_edge(spec, edge, ed, sender, receiver, e, ts_max, fd, where):
             else:
                 fd.bad("edge:delay-not-a-sample", where=where, edge=name, seq_out=m, ts_end_sender=end_o, ts_recv=recv, delay=d, dist=edge["comm"])
         exp = first_step(receiver, recv, edge["skip"])
-        if exp >= 0 and receiver[exp][0] == recv:
-            fd.n["ties"] += 1
+        if any(start == recv for start, _ in receiver):
+            fd.n["ties"] += 1  # arrival exactly at a step start: >= (taken) versus > (skip: deferred) decides
         if exp < 0:
             fd.n["unreceived"] += 1
         overtaken = run_max is not None and recv < run_max
